@@ -11,8 +11,9 @@
   What IS checked in the kernel on every run is a syntactic sufficient condition, on the source as it is
   now: the translator lists every conditional-compilation site of the non-test source
   (`Generated.cfgSites`: `#[cfg]`, `#![cfg]`, `#[cfg_attr]`, `cfg!`), and `features_only_add_items` says
-  that each of them stands at the top level of a file and only ADDS an item (a `use`, a module, an
-  `impl` block, a derive) — no function, statement or expression is conditional — and that the one
+  that each of them gates a whole item (a `use`, a module, an `impl` block, a derive, a function, a type) at the
+  top level of a file or directly inside a module / `impl` block and is not negated — no statement, block or
+  expression is conditional, so code that exists without the feature cannot reach what the feature adds — and that the one
   pair of alternative definitions (`cfg` / `cfg(not ..)`) is the type alias `SmallString`, which is
   what `small_string_is_string` is about.  A change that puts a feature-gated path inside the code
   (seeded change C17-r22) breaks this theorem whether or not a stream reaches the input it needs.
@@ -28,16 +29,20 @@ theorem small_string_is_string : smallShape = stringShape := rfl
 theorem parse_same (U : UnicodeOps) (s : Str) : parseM U s = parseS U s := rfl
 theorem build_same (U : UnicodeOps) (b : GPurl Str) : buildM U b = buildS U b := rfl
 
-/-- a conditional-compilation site that can only add an item -/
+/-- a conditional-compilation site that can only ADD something: a whole item (`use`, module, `impl` block, derive,
+function, type, constant) at the top level of a file or directly inside a module / `impl` block, not negated — an item
+that exists only with the feature cannot be used by code that exists without it, or that code would not compile; the one
+exception with an alternative (`cfg(not ..)`) definition is a type alias.  Anything attached to a statement, a block or
+an expression (`other`, `expr`, `attr`), anything deeper than one brace, any other negated gate is NOT additive. -/
 def additive (s : CfgSite) : Bool :=
-  s.depth == 0 &&
+  s.depth ≤ 1 &&
   (match s.kind with
-   | .use | .mod | .type | .impl | .derive => true
+   | .use | .mod | .type | .impl | .derive | .fn | .item => true
    | _ => false) &&
   (!s.negated || s.kind == .type)
 
-/-- every feature gate of the current source adds items at the top level of a file; nothing inside a function,
-no function, no statement, no expression is conditional -/
+/-- every feature gate of the current source adds whole items; no statement, block or expression is conditional and
+no item but the `SmallString` alias has an alternative definition -/
 theorem features_only_add_items : cfgSites.all additive = true := by decide
 
 /-- the only alternative definitions (`cfg(not(..))`) are type aliases (on the pinned tree: `SmallString` in lib.rs) -/
@@ -46,7 +51,8 @@ theorem alternatives_are_type_aliases :
 
 /-- the predicate is not trivially true: a gated function, a gate inside a body, a second pair of alternative
 functions (the shape of the seeded change C17-r22) are all refused -/
-example : additive { file := "parse.rs", cond := "feature=\"smartstring\"", kind := .fn, depth := 0, negated := false } = false ∧
+example : additive { file := "parse.rs", cond := "feature=\"smartstring\"", kind := .other, depth := 1, negated := false } = false ∧
+    additive { file := "parse.rs", cond := "not(feature=\"smartstring\")", kind := .fn, depth := 0, negated := true } = false ∧
     additive { file := "parse.rs", cond := "feature=\"smartstring\"", kind := .expr, depth := 2, negated := false } = false ∧
     additive { file := "parse.rs", cond := "not(feature=\"smartstring\")", kind := .impl, depth := 0, negated := true } = false := by decide
 
